@@ -14,10 +14,16 @@
  *      I<n>         addrxlat_sys_os_init with option set n (0 none, 1 unknown arch, 2 x86_64 only,
  *                   3 x86_64 linux, 4 x86_64 linux 3.4 with root page table, 5 x86_64 xen, 6 s390x linux,
  *                   7 aarch64 linux without page size)
+ *                   8..15 Linux on riscv64/39, riscv64/48, aarch64, x86_64, ia32, arm, ppc64, s390x with a
+ *                   root page table at MACHPHYS:1000)
+ *      P<addr>      addrxlat_walk with the system's own page-table method (ADDRXLAT_SYS_METH_PGT)
+ *      N<hex>       what the num_value callback answers for PAGE_OFFSET from now on (0: not known)
  *      M<n>         setters: 0 KV->KPHYS linear map  1 identity KPHYS<->MACHPHYS maps  2 drop all maps
  *                   3 page-table method without root  4 page-table method rooted at MACHPHYS:2000
  *      G<n>         what the get_page callback does from now on: 0 serve synthetic pages,
- *                   1 fail with ADDRXLAT_ERR_NODATA and a message, 2 fail with a custom status, no message
+ *                   1 fail with ADDRXLAT_ERR_NODATA and a message, 2 fail with a custom status, no message,
+ *                   3 empty page tables, 4/5/6 tables whose even entries point to the table at 0x1000
+ *                   (x86-64 / riscv64 / aarch64 encoding) and whose odd entries are not present
  *      E<status>    addrxlat_ctx_err(ctx, status, "direct message #n")      C  addrxlat_ctx_clear_err
  *   output per op: "<status>,<hex of addrxlat_ctx_get_err() or ->"  (void calls print status "v")
  */
@@ -28,7 +34,8 @@ static addrxlat_ctx_t *ctx;
 static addrxlat_sys_t *sys;
 static int gp_mode;
 static unsigned long msgno;
-static unsigned char pagebuf[4][0x1000];
+static unsigned char pagebuf[4][0x1000] __attribute__((aligned(8)));
+static addrxlat_addr_t page_offset;	/* answer of num_value("PAGE_OFFSET"); 0 = not known */
 static int pageslot;
 
 static addrxlat_status my_get_page(const addrxlat_cb_t *cb, addrxlat_buffer_t *buf)
@@ -40,6 +47,14 @@ static addrxlat_status my_get_page(const addrxlat_cb_t *cb, addrxlat_buffer_t *b
 	if (gp_mode == 2)
 		return (addrxlat_status)-5;
 	p = pagebuf[pageslot++ & 3];
+	if (gp_mode >= 3) {
+		/* page-table pages: 3 all entries empty; 4/5/6 even entries point back to the page at
+		 * 0x1000 as a next-level table (x86-64 / riscv64 / aarch64 encoding), odd entries empty */
+		static const uint64_t ent[] = { 0, 0x1067, 0x401, 0x1003 };
+		uint64_t *q = (uint64_t *)p;
+		for (i = 0; i < 0x200; ++i)
+			q[i] = (i & 1) ? 0 : ent[gp_mode - 3];
+	} else
 	for (i = 0; i < 0x1000; ++i)
 		p[i] = (unsigned char)(((base + i) * 13 + 1) & 0xff);
 	buf->addr.addr = base;
@@ -51,6 +66,12 @@ static addrxlat_status my_get_page(const addrxlat_cb_t *cb, addrxlat_buffer_t *b
 static unsigned long my_read_caps(const addrxlat_cb_t *cb)
 {
 	return ADDRXLAT_CAPS(ADDRXLAT_MACHPHYSADDR);
+}
+
+static addrxlat_status my_num_value(const addrxlat_cb_t *cb, const char *name, addrxlat_addr_t *val)
+{
+	if (page_offset && !strcmp(name, "PAGE_OFFSET")) { *val = page_offset; return ADDRXLAT_OK; }
+	return cb->next->num_value(cb->next, name, val);
 }
 
 static addrxlat_status cust_first_fail(addrxlat_step_t *step, addrxlat_addr_t addr)
@@ -159,7 +180,7 @@ static void set_maps(int n)
 
 static addrxlat_status os_init(int n)
 {
-	addrxlat_opt_t o[5];
+	addrxlat_opt_t o[6];
 	addrxlat_fulladdr_t root = { 0x2000, ADDRXLAT_MACHPHYSADDR };
 	unsigned c = 0;
 	switch (n) {
@@ -172,6 +193,19 @@ static addrxlat_status os_init(int n)
 	case 5: addrxlat_opt_arch(&o[c++], "x86_64"); addrxlat_opt_os_type(&o[c++], "xen"); break;
 	case 6: addrxlat_opt_arch(&o[c++], "s390x"); addrxlat_opt_os_type(&o[c++], "linux"); break;
 	case 7: addrxlat_opt_arch(&o[c++], "aarch64"); addrxlat_opt_os_type(&o[c++], "linux"); break;
+	/* 8..15: Linux on <arch> with a root page table at MACHPHYS:1000 (what the page source's
+	 * self-referencing tables point to), page size 4K and the architecture's usual virt_bits */
+	case 8: case 9: case 10: case 11: case 12: case 13: case 14: case 15: {
+		static const char *const arch[] = { "riscv64", "riscv64", "aarch64", "x86_64", "ia32", "arm",
+						    "ppc64", "s390x" };
+		static const unsigned vbits[] = { 39, 48, 39, 48, 32, 32, 0, 0 };
+		static addrxlat_fulladdr_t r2 = { 0x1000, ADDRXLAT_MACHPHYSADDR };
+		addrxlat_opt_arch(&o[c++], arch[n - 8]); addrxlat_opt_os_type(&o[c++], "linux");
+		if (vbits[n - 8]) addrxlat_opt_virt_bits(&o[c++], vbits[n - 8]);
+		addrxlat_opt_page_shift(&o[c++], 12);
+		addrxlat_opt_rootpgt(&o[c++], &r2);
+		break;
+	}
 	}
 	return addrxlat_sys_os_init(sys, ctx, c, o);
 }
@@ -194,7 +228,8 @@ int main(int argc, char **argv)
 		cb = addrxlat_ctx_add_cb(ctx);
 		cb->get_page = my_get_page;
 		cb->read_caps = my_read_caps;
-		gp_mode = 0; msgno = 0;
+		cb->num_value = my_num_value;
+		gp_mode = 0; msgno = 0; page_offset = 0;
 		memset(&step, 0, sizeof step);
 		for (tok = strtok_r(line, " ", &save); tok; tok = strtok_r(NULL, " ", &save)) {
 			unsigned a = 0, b = 0, c2 = 0; unsigned long long addr = 0;
@@ -230,6 +265,16 @@ int main(int argc, char **argv)
 				break;
 			}
 			case 'I': report(os_init(atoi(tok + 1)), 0); launched = 0; break;
+			case 'P':
+				/* walk with the translation system's own page-table method */
+				addr = strtoull(tok + 1, NULL, 16);
+				memset(&step, 0, sizeof step);
+				step.ctx = ctx; step.sys = sys;
+				step.meth = addrxlat_sys_get_meth(sys, ADDRXLAT_SYS_METH_PGT);
+				step.base.addr = addr;
+				report(addrxlat_walk(&step), 0); launched = 0;
+				break;
+			case 'N': page_offset = strtoull(tok + 1, NULL, 16); report(0, 1); break;
 			case 'M': set_maps(atoi(tok + 1)); report(0, 1); break;
 			case 'G': gp_mode = atoi(tok + 1); report(0, 1); break;
 			case 'E': {
